@@ -766,6 +766,27 @@ def range_probe(ctx, P: C.Part) -> None:
             if registered:
                 P.violations.append(C.Violation(what=f"record of amplitude {amp:g}: non-finite {badn}", signature={"subclaim": "finite", "regime": "range", "amp": amp},
                                                 replay={"range": amp}))
+    # far beyond the overflow threshold the per-segment powers overflow inside the kernels and compute() zero-fills the non-finite statistics: every
+    # density / coherence / transfer-function value is then finite (0) on the real code — and the property demands exactly that of ANY finite
+    # input. (Between ~1e78 and ~1e154 lies the recorded finding D11; this region is not it and is never matched by it.)
+    for amp in (1e160, 1e200):
+        a = amp * r0.standard_normal(200)
+        b = 0.5 * a + amp * r0.standard_normal(200)
+        for data, lab in ((np.array([a, b]), "cross"), (a, "auto")):
+            for be in ("auto", "numpy"):
+                try:
+                    _, res = run_entry(data, 1.0, "analyzer.compute", be, {"order": 0, "Jdes": 10, "Kdes": 5}, 0.0, 200)
+                    with np.errstate(all="ignore"), warnings.catch_warnings():
+                        warnings.simplefilter("ignore")
+                        badn = [n for n in DENS if getattr(res, n) is not None and not np.all(np.isfinite(np.asarray(getattr(res, n))))]
+                except Exception as ex:
+                    badn = [f"raised {type(ex).__name__}"]
+                P.cases += 1
+                P.hit("saturated-probe")
+                if badn:
+                    P.violations.append(C.Violation(what=f"finite {lab} record of amplitude {amp:g} (backend {be}): non-finite {badn} — the statistics that overflowed "
+                                                         f"inside the kernels are no longer zero-filled", signature={"subclaim": "finite", "regime": "saturated", "amp": amp, "mode": lab},
+                                                    replay={"saturated": amp, "mode": lab, "backend": be}))
     if obs:
         P.notes.append("range probe (outside the amplitude domain of sub-claim d, not counted as violations): non-finite values at amplitude " + "; ".join(obs))
 
